@@ -74,8 +74,36 @@ def bit_length_on_path(I, v: AInt):
             if isinstance(bits[i], F) and bits[i].is_const and bits[i].c == 1:
                 lo = i + 1
                 break
-        return (lo, j + 1)
+        # recorded disequalities "the bits from position m upwards are not all zero" (loops of the form `while value:` /
+        # `value >>= 7` leave these instead of linear equations) raise the lower bound to m + 1
+        names = I.atoms.names
+        for key, const, is_eq in I.st.eqs:
+            if is_eq or const != 0:
+                continue
+            idx = set()
+            plain = True
+            for f in I.simp_bits(list(key)):
+                if isinstance(f, F) and f.is_const and f.c == 0:
+                    continue
+                at = f.atoms() if isinstance(f, F) and f.c == 0 else []
+                if len(at) == 1 and isinstance(names[at[0]], tuple) and names[at[0]][0] == v_name(I, v):
+                    idx.add(names[at[0]][1])
+                else:
+                    plain = False
+            if plain and idx and all(isinstance(bits[i], F) and bits[i].is_const and bits[i].c == 0 for i in range(max(idx) + 1, len(bits))):
+                lo = max(lo, min(idx) + 1)
+        return (min(lo, j + 1), j + 1)
     return (0, 0)
+
+
+def v_name(I, v: AInt):
+    """name of the atoms the symbolic integer was built from"""
+    for b in v.bits:
+        if isinstance(b, F) and not b.is_const and len(b.atoms()) == 1:
+            nm = I.atoms.names[b.atoms()[0]]
+            if isinstance(nm, tuple):
+                return nm[0]
+    return None
 
 
 def cls_name(L):
